@@ -26,6 +26,9 @@ import (
 	"github.com/ory/keto/internal/relationtuple"
 	"github.com/ory/keto/internal/x"
 	"github.com/ory/keto/ketoapi"
+	"google.golang.org/grpc/codes"
+	"google.golang.org/grpc/status"
+	"google.golang.org/protobuf/proto"
 )
 
 // ---------------------------------------------------------------- tuples
@@ -685,4 +688,24 @@ func ketoGoroutines() (int, string) {
 		}
 	}
 	return n, sample
+}
+
+// grpcWire does to a handler's reply what the gRPC server does with it next: it marshals it. A reply that cannot be
+// marshalled (a string field that is not valid UTF-8) reaches the client as codes.Internal.
+func grpcWire[M proto.Message](m M, err error) (M, error) {
+	if err != nil {
+		return m, err
+	}
+	if _, merr := proto.Marshal(m); merr != nil {
+		return m, status.Errorf(codes.Internal, "grpc: error while marshaling: %v", merr)
+	}
+	return m, nil
+}
+
+// jsonText is what encoding/json makes of a string: every byte that is not part of valid UTF-8 becomes U+FFFD.
+func jsonText(s string) string {
+	b, _ := json.Marshal(s)
+	var out string
+	_ = json.Unmarshal(b, &out)
+	return out
 }
